@@ -1308,6 +1308,11 @@ class Interp:
         if isinstance(n.op, ast.Invert):
             if isinstance(v, Mask):
                 return Mask([c.negate() for c in v.conds])
+            if isinstance(v, np.ndarray) and v.size and all(isinstance(c, (bool, np.bool_)) for c in v.flat):
+                r_ = np.empty(v.shape, dtype=object)
+                for i_ in np.ndindex(*v.shape):
+                    r_[i_] = not bool(v[i_])
+                return r_
             if isinstance(v, Guard):
                 return v.negate()
             if isinstance(v, bool):
